@@ -309,6 +309,7 @@ impl<T: Sc, M: Mdl<T>> AnyProb<T, M> {
         self,
         cfg: &OptCfg,
         rec: Rc<RefCell<Vec<TapEvent>>>,
+        ctl: Option<std::sync::Arc<crate::ctl::Ctl>>,
     ) -> (Self, String, bool, usize, T) {
         let lm = make_lm::<T>(cfg);
         macro_rules! run {
@@ -316,6 +317,7 @@ impl<T: Sc, M: Mdl<T>> AnyProb<T, M> {
                 let (tap, report) = lm.minimize(Tap {
                     inner: $p,
                     rec: rec.clone(),
+                    ctl: ctl.clone(),
                 });
                 (
                     AnyProb::$variant(tap.inner),
@@ -351,7 +353,7 @@ impl<T: Sc, M: Mdl<T> + Clone> AnyProb<T, M> {
 // ---------------------------------------------------------------------------------------
 
 #[derive(Clone, Debug, PartialEq)]
-pub enum TapEvent {
+pub enum TapKind {
     SetParams(Vec<u64>),
     /// bits of the residual vector handed to the optimizer (None = absent)
     Residuals(Option<Vec<u64>>),
@@ -359,9 +361,32 @@ pub enum TapEvent {
     Params(Vec<u64>),
 }
 
+#[derive(Clone, Debug, PartialEq)]
+pub struct TapEvent {
+    pub kind: TapKind,
+    /// model-seam events caused by this call: log[ev_from..ev_to]
+    pub ev_from: usize,
+    pub ev_to: usize,
+}
+
 pub struct Tap<P> {
     pub inner: P,
     pub rec: Rc<RefCell<Vec<TapEvent>>>,
+    pub ctl: Option<std::sync::Arc<crate::ctl::Ctl>>,
+}
+
+impl<P> Tap<P> {
+    fn pos(&self) -> usize {
+        self.ctl.as_ref().map(|c| c.log_len()).unwrap_or(0)
+    }
+    fn push(&self, kind: TapKind, ev_from: usize) {
+        let ev_to = self.pos();
+        self.rec.borrow_mut().push(TapEvent {
+            kind,
+            ev_from,
+            ev_to,
+        });
+    }
 }
 
 impl<T, P> LeastSquaresProblem<T, Dyn, Dyn> for Tap<P>
@@ -381,30 +406,35 @@ where
     type ParameterStorage = Owned<T, Dyn>;
 
     fn set_params(&mut self, x: &Vector<T, Dyn, Self::ParameterStorage>) {
-        self.rec
-            .borrow_mut()
-            .push(TapEvent::SetParams(x.iter().map(|v| v.bits()).collect()));
-        self.inner.set_params(x)
+        let from = self.pos();
+        self.inner.set_params(x);
+        self.push(
+            TapKind::SetParams(x.iter().map(|v| v.bits()).collect()),
+            from,
+        );
     }
     fn params(&self) -> Vector<T, Dyn, Self::ParameterStorage> {
+        let from = self.pos();
         let p = self.inner.params();
-        self.rec
-            .borrow_mut()
-            .push(TapEvent::Params(p.iter().map(|v| v.bits()).collect()));
+        self.push(TapKind::Params(p.iter().map(|v| v.bits()).collect()), from);
         p
     }
     fn residuals(&self) -> Option<Vector<T, Dyn, Self::ResidualStorage>> {
+        let from = self.pos();
         let r = self.inner.residuals();
-        self.rec.borrow_mut().push(TapEvent::Residuals(
-            r.as_ref().map(|r| r.iter().map(|v| v.bits()).collect()),
-        ));
+        self.push(
+            TapKind::Residuals(r.as_ref().map(|r| r.iter().map(|v| v.bits()).collect())),
+            from,
+        );
         r
     }
     fn jacobian(&self) -> Option<Matrix<T, Dyn, Dyn, Self::JacobianStorage>> {
+        let from = self.pos();
         let j = self.inner.jacobian();
-        self.rec.borrow_mut().push(TapEvent::Jacobian(
-            j.as_ref().map(|j| j.iter().map(|v| v.bits()).collect()),
-        ));
+        self.push(
+            TapKind::Jacobian(j.as_ref().map(|j| j.iter().map(|v| v.bits()).collect())),
+            from,
+        );
         j
     }
 }
